@@ -1009,8 +1009,24 @@ const AUTHOR_BYTES: std::ops::Range<usize> = 32..64;
 const KEY_BYTES: std::ops::RangeFrom<usize> = 64..;
 
 /// The identifier of a record.
-#[derive(Clone, Serialize, Deserialize, PartialEq, Eq, PartialOrd, Ord)]
+#[derive(Clone, Serialize, PartialEq, Eq, PartialOrd, Ord)]
 pub struct RecordIdentifier(Bytes);
+
+impl<'de> Deserialize<'de> for RecordIdentifier {
+    fn deserialize<D: serde::Deserializer<'de>>(deserializer: D) -> Result<Self, D::Error> {
+        #[derive(Deserialize)]
+        struct RecordIdentifier(Bytes);
+        let RecordIdentifier(bytes) = RecordIdentifier::deserialize(deserializer)?;
+        // All accessors slice the namespace and author ids out of the identifier: identifiers
+        // received from a peer must be long enough for both.
+        if bytes.len() < KEY_BYTES.start {
+            return Err(serde::de::Error::custom(
+                "record identifier is shorter than a namespace id and an author id",
+            ));
+        }
+        Ok(Self(bytes))
+    }
+}
 
 impl Default for RecordIdentifier {
     fn default() -> Self {
